@@ -133,6 +133,14 @@ impl IndexEntry {
     /// The result has no blocks.
     pub(crate) fn metadata_from(source: &source::Entry) -> IndexEntry {
         let mtime = source.mtime();
+        // Times before the epoch have a negative fraction in jiff; store whole seconds
+        // rounded down so that the stored nanoseconds are never negative.
+        let mut secs = mtime.as_second();
+        let mut nanos = mtime.subsec_nanosecond();
+        if nanos < 0 {
+            secs -= 1;
+            nanos += 1_000_000_000;
+        }
         assert_eq!(
             source.symlink_target().is_some(),
             source.kind() == Kind::Symlink
@@ -142,8 +150,8 @@ impl IndexEntry {
             kind: source.kind(),
             addrs: Vec::new(),
             target: source.symlink_target().map(|t| t.to_owned()),
-            mtime: mtime.as_second(),
-            mtime_nanos: mtime.subsec_nanosecond().try_into().unwrap(),
+            mtime: secs,
+            mtime_nanos: nanos.try_into().unwrap(),
             unix_mode: source.unix_mode(),
             owner: source.owner().to_owned(),
         }
